@@ -586,6 +586,12 @@ def _eof_ind_ok(o, n):
     return And_(sw, tid_eq(es[0]["args"][0], val(o.self._params.transaction_id)))
 
 
+def _timer_for_receiving_entity(t):
+    """the check timer was requested from the provider for the RECEIVING entity"""
+    from cfdppy.mib import EntityType
+    return t.f.get("_for_entity") is EntityType.RECEIVING
+
+
 def _eof_is_cancel(o):
     return ne(o.eof_pdu.condition_code, CC.NO_ERROR)
 
@@ -646,7 +652,7 @@ C("_handle_eof_pdu", arg_types={**SELF, "eof_pdu": T.Obj(EofPdu)}, props=("C12",
           Not_(_eof_is_cancel(o)), eq(mode(o.self), UNACK), o.self._params.fp.progress <= o.eof_pdu.file_size,
           ne(o.self._params.checksum_type, ChecksumType.NULL_CHECKSUM), Not_(_ck_matches_after_eof(o))), And_(
           step_is(n.self, STEP.RECV_FILE_DATA_WITH_CHECK_LIMIT_HANDLING), n.self._params.current_check_count == 0,
-          opt(n.self._params.check_timer, lambda t: Not_(B(t.expired)), False),
+          opt(n.self._params.check_timer, lambda t: And_(Not_(B(t.expired)), _timer_for_receiving_entity(t)), False),
           # C14: the checksum failure is declared ONCE (finding F23, repaired: it used to be declared by _checksum_verify and
           # again by _handle_no_error_eof)
           declared(n, CC.FILE_CHECKSUM_FAILURE, "ignore_cb"),
@@ -1121,7 +1127,7 @@ C("_handle_fd_pdu", arg_types={**SELF, "file_data_pdu": T.Obj(_FD)}, props=("C05
       Clause("C05.one_write_at_offset_to_destination", lambda o, n, r: (
           (lambda ws, rej: (len(ws) == 1 and ws[0]["op"] == "write_data" and And_(
               Eq_(ws[0]["path"], o.self._params.fp.file_name), Eq_(ws[0]["data"], o.file_data_pdu.file_data),
-              Eq_(ws[0]["offset"], o.file_data_pdu.offset))) if not rej else len(ws) == 0)(_writes(n), _rejected(n))), ("C05", "C16")),
+              Eq_(ws[0]["offset"], o.file_data_pdu.offset))) if not rej else len(ws) == 0)(_writes(n), _rejected(n))), ("C05", "C16", "C01", "C02", "C03")),
       Clause("C05.no_other_filestore_access", lambda o, n, r: len(vfs_ops(n)) == len(_writes(n)), ("C05",)),
       Clause("C15.file_segment_recv_indication_faithful", lambda o, n, r: _fd_ind_ok(o, n), ("C15",)),
       Clause("C01.progress_covers_written_data", lambda o, n, r: (
